@@ -23,16 +23,27 @@ pub enum CompileOutcome {
 
 /// `mods`: user modules; the standard library (incl. std/*.sam files not built into the parser) is added.
 pub fn compile(mods: &[(Vec<String>, String)], entry: &[String]) -> CompileOutcome {
+  compile_in_order(mods, entry, 0)
+}
+
+/// `order` permutes the order in which the modules (std and user) are registered with the heap:
+/// rotation by order/2, reversed when odd (0 = std first, then the user modules as given)
+pub fn compile_in_order(mods: &[(Vec<String>, String)], entry: &[String], order: usize) -> CompileOutcome {
   let mut heap = Heap::new();
   let mut handles = HashMap::new();
   let user_texts: Vec<&str> = mods.iter().map(|(_, t)| t.as_str()).collect();
-  for (name, text) in crate::model::front::needed_std(&mut heap, &user_texts) {
+  let mut all: Vec<(Vec<String>, String)> = crate::model::front::needed_std(&mut heap, &user_texts);
+  all.extend(mods.iter().cloned());
+  if !all.is_empty() {
+    let k = (order / 2) % all.len();
+    all.rotate_left(k);
+    if order % 2 == 1 {
+      all.reverse();
+    }
+  }
+  for (name, text) in all {
     let mr = heap.alloc_module_reference_from_string_vec(name);
     handles.insert(mr, text);
-  }
-  for (name, text) in mods {
-    let mr = heap.alloc_module_reference_from_string_vec(name.clone());
-    handles.insert(mr, text.clone());
   }
   let entry_mr = heap.alloc_module_reference_from_string_vec(entry.to_vec());
   let entry_name = entry.join(".");
